@@ -29,7 +29,11 @@ RULE = ('history = 3-30 generated operations on one collection with TTL indexes 
         'creations combine expireAfterSeconds / unique / sparse / partialFilterExpression, over '
         'documents that hold few distinct values, so that creations are refused as often as they '
         'succeed), documents whose TTL field '
-        'holds dates around the clock, arrays of dates, non-dates or nothing, and clock moves of '
+        'holds (on insert, and after $set / $push) dates around the clock, flat arrays of dates '
+        'and non-dates, arrays whose items are arrays again (1-3 levels deep, holding dates, '
+        'strings, numbers, sub-documents or nothing - beside dates of their own or alone), arrays '
+        'of sub-documents holding dates, empty arrays, non-dates or nothing - only the dates among '
+        "an array's OWN items are dates of the field - and clock moves of "
         '+-1..200 s including exact boundary instants; after every step outcome and visible '
         'documents are compared with the Lean model, and an independent python rendering of the '
         'rule (shadow collection) says which documents must be visible; index_information() is '
